@@ -421,8 +421,13 @@ fn octets_class(component: &str, ctxname: &str, spec: &TypeSpec, d: &str) -> Str
     let base = format!("C12|{component}|octets-not-RFC4034-3.1.8.1");
     if d.contains("duplicate-RRs-kept") {
         // other deviations on top of kept duplicates show up by themselves in
-        // the duplicate-free cases
-        format!("{base}|{ctxname}|duplicate-RRs-kept")
+        // the duplicate-free cases. sign_rrset never removes duplicates; the
+        // SortedRecords pipelines are supposed to, so there the type matters.
+        if ctxname == "sign_rrset" {
+            format!("{base}|{ctxname}|duplicate-RRs-kept")
+        } else {
+            format!("{base}|{ctxname}|type={}|duplicate-RRs-kept", spec.mn)
+        }
     } else if d == "signer-name-not-lower-cased" {
         format!("{base}|{d}")
     } else if spec.lib_unknown_listed && d == "rdata-names-not-lower-cased" {
@@ -1751,7 +1756,12 @@ fn fault_case(env: &Env, c: &Case, l: &mut Local) {
                 };
                 // RFC 4034 6.3 lets a validator treat duplicate RRs as an
                 // error: no octets are demanded for such a damaged set
-                let proper = is_rrset(rrs_f, spec.rtype) && !has_dups;
+                // IPSECKEY/SVCB/HTTPS RDATA is opaque to the reference reader but
+                // holds a name: a damaged gateway type / length can make the
+                // library see a compression pointer there, for which no
+                // canonical form is defined
+                let opaque_name = matches!(spec.rtype, 45 | 64 | 65) && fclass == "rr-rdata";
+                let proper = is_rrset(rrs_f, spec.rtype) && !has_dups && !opaque_name;
                 let o1 = ref_octets(sig_f, rrs_f, open_lower);
                 let same_sig = sig_f.sig == s.sig.sig;
                 let eq1 = o1.as_ref() == Some(ref0);
